@@ -29,14 +29,17 @@ from gverif.props import c07_bind as B
 
 # The case spaces (mirror of QuickJobs / ThoroughJobs / SimJobs in spec/C3.tla; used to assert that TLC
 # emitted exactly the whole space): name -> (n, maxb, domain, number of member names, number of layouts)
+ONE, SPLIT, SPELL = ["one"], ["from", "as", "attr", "chain", "chain2"], ["sub", "nest"]
 JOBS = {
-    "quick": {"dag5": (5, 2, "dag", 0, 1), "dag4": (4, 3, "dag", 1, 1), "dag3": (3, 3, "dag", 2, 1), "free3": (3, 3, "free", 0, 1),
-              "free3m": (3, 2, "free", 1, 1), "self2": (2, 3, "self", 1, 1), "split4": (4, 3, "dag", 0, 5), "split3": (3, 3, "dag", 1, 5),
-              "splitfree3": (3, 2, "free", 0, 5)},
-    "thorough": {"dag5": (5, 3, "dag", 1, 1), "dag4": (4, 3, "dag", 2, 1), "free3": (3, 3, "free", 1, 1), "free4": (4, 2, "free", 0, 1),
-                 "self3": (3, 2, "self", 1, 1), "split4": (4, 3, "dag", 1, 5), "splitfree3": (3, 2, "free", 1, 5)},
+    "quick": {"dag5": (5, 3, "dag", 0, ONE), "dag4": (4, 3, "dag", 1, ONE), "dag3": (3, 3, "dag", 2, ONE), "free3": (3, 3, "free", 0, ONE),
+              "free3m": (3, 2, "free", 1, ONE), "self2": (2, 3, "self", 1, ONE), "split4": (4, 3, "dag", 0, SPLIT), "split3": (3, 3, "dag", 1, SPLIT),
+              "splitfree3": (3, 2, "free", 0, SPLIT), "spell4": (4, 3, "dag", 0, SPELL), "spell3": (3, 3, "dag", 1, SPELL),
+              "del3": (3, 3, "dag", 2, ONE, True)},
+    "thorough": {"dag5": (5, 3, "dag", 1, ONE), "dag4": (4, 3, "dag", 2, ONE), "free3": (3, 3, "free", 1, ONE), "free4": (4, 2, "free", 0, ONE),
+                 "self3": (3, 2, "self", 1, ONE), "split4": (4, 3, "dag", 1, SPLIT), "splitfree3": (3, 2, "free", 1, SPLIT),
+                 "spell4": (4, 3, "dag", 1, SPELL), "del4": (4, 3, "dag", 1, ONE, True)},
 }
-SIM = (6, 3, "dag", 1, 1)
+SIM = (6, 3, "dag", 1, ONE)
 
 
 def _lists(pool: int, maxb: int, dups: bool) -> int:
@@ -57,15 +60,16 @@ def expected_hierarchies(job: tuple) -> int:
 
 
 def expected_cases(job: tuple) -> int:
-    n, _, _, nmem, nlay = job
-    per_layout = 1 if nlay == 1 else nlay * (n - 1)
-    return expected_hierarchies(job) * per_layout * (2 ** nmem) ** n
+    n, nmem, layouts = job[0], job[3], job[4]
+    per_layout = sum(1 if lay in ("one", "sub") else n - 1 for lay in layouts)  # split points
+    dels = n * nmem if len(job) > 5 and job[5] else 1                             # one `del cls[name]` per class x name
+    return expected_hierarchies(job) * per_layout * (2 ** nmem) ** n * dels
 
 
 # every action of the machine must fire somewhere in a tier (vacuity)
 ACTIONS = ["Reference", "Extension", "CallMro", "MroEnter", "MroCycleCheck", "MroRecurse", "MergeStart", "MergeExhausted",
            "MergePick", "MergeFail", "Unwind", "MroFailed", "MroAllDone", "PlaceMembers", "InheritedStart", "InheritedFold",
-           "InheritedReturn", "AllMembers"]
+           "InheritedReturn", "AllMembers", "DelItem"]
 
 
 # ---------------------------------------------------------------------------------------------------
@@ -108,11 +112,12 @@ def _work(task):
 
 
 def case_id(case: dict) -> dict:
-    return {k: case[k] for k in ("n", "domain", "bases", "layout", "cut", "has")}
+    return {k: case[k] for k in ("n", "domain", "bases", "layout", "cut", "has", "delop") if k in case}
 
 
 def case_key(case: dict) -> str:
-    return json.dumps([case["domain"], case["bases"], case["layout"], case["cut"], case["has"]])
+    d = case.get("delop") or {}
+    return json.dumps([case["domain"], case["bases"], case["layout"], case["cut"], case["has"], d.get("cls", 0), d.get("name", "")])
 
 
 def nontrivial(case: dict) -> bool:
@@ -282,7 +287,7 @@ def _run_tier(run: Run, tier: str, jobs: dict, pool, rnd):
         insp: list = []
         with ThreadPoolExecutor(max_workers=2) as tp:
             fsim = tp.submit(tlc.run, "C3", "C3_jobs.cfg", workers=2, constants={"JOBS": "SimJobs"}, simulate="num=6000", depth=4000, seed=SEED + 7, timeout=3000, heap="6g")
-            order = ["dag5", "dag4", "free3", "free4", "self3", "split4", "splitfree3"]
+            order = ["dag5", "dag4", "free3", "free4", "self3", "split4", "splitfree3", "spell4", "del4"]
             nxt = tp.submit(tlc_job, "T_" + order[0], 8)
             for i, name in enumerate(order):
                 res = nxt.result()
